@@ -51,9 +51,16 @@ func checkC13(c *Ctx, n int) {
 	for i := 0; i < n; i++ {
 		g := &gen{r: c.Rng, p: p}
 		cs := g.genCase()
+		collided := false
+		if g.chance(0.4) {
+			collided = g.collidePriority(cs.Build[0].Struct)
+		}
 		real, _ := BuildReal(cs)
 		if real.dead || !uniqueSubcommandNames(real) {
 			continue
+		}
+		if collided {
+			c.Class("c13/deliberate-cross-group-name-clash")
 		}
 		// candidate sections of the parser's own groups
 		type sec struct {
@@ -80,10 +87,24 @@ func checkC13(c *Ctx, n int) {
 			}
 		}
 		s := secs[c.Rng.Intn(len(secs))]
+		if collided && c.Rng.Intn(3) != 0 {
+			s = secs[0]
+		}
 		if len(s.opts) == 0 {
 			continue
 		}
 		target := s.opts[c.Rng.Intn(len(s.opts))]
+		if collided {
+			// look for an option whose names clash with another option's
+			for _, o := range s.opts {
+				in := reflectTag(o, "ini-name")
+				for _, o2 := range s.opts {
+					if o2 != o && in != "" && o2.ShortName != 0 && (string(o2.ShortName) == in || o2.LongNameWithNamespace() == in) {
+						target = o
+					}
+				}
+			}
+		}
 		code := real.optCode(target)
 		long := target.LongNameWithNamespace()
 		if code[0] == 'F' || long == "" || strings.Contains(long, "=") || reflectTag(target, "no-ini") != "" || code == "c1" {
@@ -112,6 +133,20 @@ func checkC13(c *Ctx, n int) {
 			names = append(names, string(target.ShortName))
 		}
 		name := names[c.Rng.Intn(len(names))]
+		if collided {
+			// prefer the names other options also answer to
+			for _, cand := range names {
+				n := 0
+				for _, o := range s.opts {
+					if strings.EqualFold(reflectTag(o, "ini-name"), cand) || o.Field().Name == cand || o.LongNameWithNamespace() == cand || (o.ShortName != 0 && string(o.ShortName) == cand) {
+						n++
+					}
+				}
+				if n > 1 {
+					name = cand
+				}
+			}
+		}
 		if resolveIniName(s.opts, name) != target || name != strings.TrimSpace(name) || strings.ContainsAny(name, "=[;#") {
 			c.Class("c13/name-resolves-elsewhere-skip")
 			continue
@@ -298,10 +333,12 @@ func checkC05(c *Ctx, n int) {
 		sd := &StructDesc{}
 		var opts []*precOpt
 		var env []EnvVar
-		nsEnv := ""
-		useNs := r.Intn(3) == 0
+		useNs := r.Intn(2) == 0
+		var nsLevels []string
 		if useNs {
-			nsEnv = "PNS"
+			for lvl := 0; lvl < 1+r.Intn(3); lvl++ {
+				nsLevels = append(nsLevels, []string{"OUTER", "MID", "INNER"}[lvl])
+			}
 		}
 		envDelim := "_"
 		if r.Intn(4) == 0 {
@@ -353,7 +390,7 @@ func checkC05(c *Ctx, n int) {
 					}
 					full := key
 					if useNs {
-						full = nsEnv + envDelim + key
+						full = strings.Join(nsLevels, envDelim) + envDelim + key
 					}
 					env = append(env, EnvVar{full, strings.Join(po.env, delim)})
 				}
@@ -376,8 +413,15 @@ func checkC05(c *Ctx, n int) {
 			opts = append(opts, po)
 		}
 		top := sd
+		gi := 1
 		if useNs {
-			top = &StructDesc{Fields: []FieldDesc{{Name: "G", Exported: true, Kind: "s", Sub: sd, Tag: quoteTag("group", "Inner") + " " + quoteTag("env-namespace", nsEnv)}}}
+			// 1-3 nested groups, each with its own env-namespace; outermost first in the variable name
+			top = sd
+			for lvl := len(nsLevels) - 1; lvl >= 0; lvl-- {
+				top = &StructDesc{Fields: []FieldDesc{{Name: fmt.Sprintf("G%d", lvl), Exported: true, Kind: "s", Sub: top,
+					Tag: quoteTag("group", fmt.Sprintf("Inner%d", lvl)) + " " + quoteTag("env-namespace", nsLevels[lvl])}}}
+			}
+			gi = 1 + len(nsLevels)
 		}
 		cs := &Case{Name: "app", NsDelim: ".", EnvNsDelim: envDelim, Env: env}
 		cs.Build = []BuildOp{{Kind: "addgroup", Target: 1, Short: "Application Options", Struct: top}}
@@ -432,10 +476,6 @@ func checkC05(c *Ctx, n int) {
 				vals = optionValues(cr.Impl, "INI ", 0)
 			} else {
 				vals = optionValues(cr.Impl, "RET ", 0)
-			}
-			gi := 1
-			if useNs {
-				gi = 2
 			}
 			for j, po := range opts {
 				ref := fmt.Sprintf("1.%d.%d", gi, j)
